@@ -41,6 +41,7 @@ def run_schedule(pipe: SimPipeline, rng, steps, *, p_timeout=0.0, p_drop=0.0, qu
         while fi < len(faults) and faults[fi][0] <= n:
             faults[fi][1](pipe)
             fi += 1
+            last_progress = n          # quiescence is measured from the last injected event
         acts = pipe.enabled()
         if not acts:
             break
